@@ -603,6 +603,6 @@ register("TensorTrainMatrix.fit_transform", s_ttm(), class_builder(D.TensorTrain
 register("TensorRing.fit_transform", s_tr(), class_builder(D.TensorRing, b_tr, tensor_key="input_tensor"), quick=60)
 register("TensorRingALS.fit_transform", s_tr_als(), class_builder(D.TensorRingALS, b_tr_als), quick=40)
 register("TensorRingALSSampled.fit_transform", s_tr_als(sampled=True), class_builder(D.TensorRingALSSampled, b_tr_als_sampled), quick=40)
-register("Parafac2.fit_transform", s_parafac2(), class_builder(D.Parafac2, b_parafac2, drop=(), tensor_key="tensor_slices", force={"return_errors": True}), quick=40)
+register("Parafac2.fit_transform", s_parafac2(), class_builder(D.Parafac2, b_parafac2, drop=(), tensor_key="tensor_slices"), quick=40)
 register("CPPower.fit_transform", s_power(rank=True), class_builder(D.CPPower, _b_power(D.parafac_power_iteration)), gseed=True, quick=50)
 register("SymmetricCP.fit_transform", s_power(symmetric=True, rank=True), class_builder(D.SymmetricCP, _b_power(D.symmetric_parafac_power_iteration)), gseed=True, quick=50)
